@@ -23,7 +23,10 @@ CONSTANTS
   DEV_DoubleRemove,  \* remove_node removes a dependant reachable twice a second time (panic)
   DEV_UndefDep,      \* a definition whose dependency is not defined encodes to an invalid component
   DEV_DefRename,     \* exporting a definition under a further name replaces the name it is encoded under
-  InitReg            \* packages registered before the explored history starts (registered by the
+  DEV_NameCase,      \* names are compared exactly: `foo` and `FOO` are both accepted (the encoding is invalid)
+  DEV_DefLocator,    \* define_type accepts the locator names (url=<..>, ...) that export() refuses
+  DEV_KindBound,     \* (KF31) a name bound to a kind of item ([method]r.m, ...) is accepted for any item
+  InitReg           \* packages registered before the explored history starts (registered by the
                      \* first operations of every history)
 
 VARIABLES g, hist
@@ -81,11 +84,14 @@ IUnregister(s, p) ==
       s2 == IF DEV_StaleSat THEN s1 ELSE ClearSat(s1, R)
   IN IRes("ok", [DropNodes(s2, R) EXCEPT !.reg = @ \ {p}])
 
+\* the name maps are keyed by the exact string; the repaired code also looks for a key of the same fold
+ITaken(names, name) == IF DEV_NameCase THEN name \in names ELSE Taken(names, name)
+
 IDefineType(s, name, t) ==
   IF t \in DOMAIN s.defined THEN IRes("TypeAlreadyDefined", s)
   ELSE IF DefClass[t] = "resource" THEN IRes("CannotDefineResource", s)
-  ELSE IF name \in DOMAIN s.exports THEN IRes("ExportConflict", s)
-  ELSE IF name \notin ValidNames THEN IRes("InvalidExternName", s)
+  ELSE IF ITaken(DOMAIN s.exports, name) THEN IRes("ExportConflict", s)
+  ELSE IF name \notin ValidNames \/ (~DEV_DefLocator /\ IsLocator(name)) THEN IRes("InvalidExternName", s)
   ELSE LET n == INewId(s)
            deps == {Edge("dep", s.defined[d], n, NONE) : d \in DefDeps[t] \cap DOMAIN s.defined}
            rdeps == {Edge("dep", n, s.defined[o], NONE) : o \in {x \in DOMAIN s.defined : t \in DefDeps[x]}}
@@ -95,7 +101,7 @@ IDefineType(s, name, t) ==
                                !.exports = Extend(@, name, n)])
 
 IImport(s, name, kname) ==
-  IF name \in DOMAIN s.imports THEN IRes("ImportAlreadyExists", s)
+  IF ITaken(DOMAIN s.imports, name) THEN IRes("ImportAlreadyExists", s)
   ELSE IF name \notin ValidNames THEN IRes("InvalidImportName", s)
   ELSE LET n == INewId(s)
        IN IRes("ok", [s EXCEPT !.nodes = Extend(@, n, INode("imp", NONE, KindTab[kname], name, NONE)),
@@ -133,8 +139,8 @@ IUnsetArg(s, i, a, src) ==
                             !.nodes[i].sat = @ \ {a}])
 
 IExport(s, n, name) ==
-  IF name \in DOMAIN s.exports THEN IRes("ExportAlreadyExists", s)
-  ELSE IF name \notin ValidNames THEN IRes("InvalidExportName", s)
+  IF ITaken(DOMAIN s.exports, name) THEN IRes("ExportAlreadyExists", s)
+  ELSE IF name \notin ValidNames \/ IsLocator(name) THEN IRes("InvalidExportName", s)
   ELSE IRes("ok", [s EXCEPT !.nodes[n].exp = name, !.exports = Extend(@, name, n)])
 
 NamesOf(s, n) == {x \in DOMAIN s.exports : s.exports[x] = n}
@@ -218,9 +224,14 @@ KF_UndefDep(s) ==
   \E t \in DOMAIN s.defined : ~(DefDeps[t] \subseteq DOMAIN s.defined)
 KF_DefRename(s) ==
   \E n \in ILive(s) : s.nodes[n].k = "def" /\ Cardinality(NamesOf(s, n)) > 1
+\* an import or export under a name that is bound to a kind of item the item is not (no item of the
+\* libraries has the shape of a resource method, constructor or static function)
+KF_KindBound(s) ==
+  \E x \in DOMAIN s.imports \cup DOMAIN s.exports : x \in DOMAIN NameInfo /\ NameInfo[x].cls = "kindbound"
 KnownFindings(s) ==
   (IF KF_UndefDep(s) THEN {"undefined-dependency"} ELSE {})
   \cup (IF KF_DefRename(s) THEN {"definition-renamed"} ELSE {})
+  \cup (IF KF_KindBound(s) THEN {"kind-bound-name"} ELSE {})
 
 \* the export names the code emits: a definition is exported under its `export` field only
 IEncodedExportNames(s) ==
@@ -232,10 +243,11 @@ IEncodeOutcome(s) ==
   LET abs == AbsView(s)
   IN IF HasCycle(abs) THEN {"GraphContainsCycle"}
      ELSE IF \E x \in DOMAIN s.exports : s.exports[x] \notin ILive(s) THEN {"panic"}
-     ELSE IF IImportsImplicit(s) \cap DOMAIN s.imports # {} THEN {"ImplicitImportConflict"}
+     ELSE IF \E x \in IImportsImplicit(s) : ITaken(DOMAIN s.imports, x) THEN {"ImplicitImportConflict"}
      ELSE IF \E i \in IInstNodes(s) : s.nodes[i].sat # {e.lab : e \in {x \in In(s, i) : x.t = "arg"}}
           THEN {"ValidationFailure"}
      ELSE IF DEV_UndefDep /\ KF_UndefDep(s) /\ EncodeOutcome(abs) = {"ok"} THEN {"ValidationFailure"}
+     ELSE IF DEV_KindBound /\ KF_KindBound(s) /\ EncodeOutcome(abs) = {"ok"} THEN {"ValidationFailure"}
      ELSE EncodeOutcome(abs)
 
 (***************************************************************************)
@@ -292,7 +304,7 @@ Consistent ==
 QueriesAgree ==
   ~g.panic =>
     /\ IImportsImplicit(g) = GraphImportsImplicit(AbsView(g))
-    /\ (~KF_UndefDep(g) => IEncodeOutcome(g) \subseteq EncodeOutcome(AbsView(g)))
+    /\ (~KF_UndefDep(g) /\ ~KF_KindBound(g) => IEncodeOutcome(g) \subseteq EncodeOutcome(AbsView(g)))
     /\ (~KF_DefRename(g) => IEncodedExportNames(g) = DOMAIN AbsView(g).exports)
 
 \* every step is a step the contract allows, with the contract's successor state
